@@ -29,8 +29,10 @@ META = {
              "handle is open, no handle is closed twice, a released uncached handle is closed, reference counts equal outstanding "
              "loans, open descriptors <= capacity + lent handles. Tied to the code by comparing handle identity, Len, Cap, fstat "
              "validity of every handle ever returned and the /proc/self/fd count after every operation.",
-        note="Trusts: Lean kernel; each FileCache method is one atomic step (holds c.lock throughout); os.File.Stat as the liveness "
-             "probe; concurrency itself is covered by C16's lock facts, not here.",
+        note="Trusts: Lean kernel; os.File.Stat as the liveness probe. 'Concurrent use' is reduced to the sequential theorem by two "
+             "obligations over the regenerated facts: every access of a FileCache field holds c.lock exclusively (C14_methods_atomic) and "
+             "every exported method is ONE critical section, c.lock.Lock() having one call site in it (C14_methods_single_section): any "
+             "concurrent execution is then a sequence of whole methods, which is what the theorem quantifies over.",
     ),
 }
 
@@ -228,7 +230,9 @@ META["C11"] = dict(
          "hand-over passes). The proof attempt without PassesOK produced a reachable counterexample (a cycle cut after deleteRecords "
          "dropped the affected set; the file stayed visited for good): defect D33, reproduced on the real code through the exported "
          "MultihashPrimary.GC(ctx), repaired by fix commit 552b64c; the model carries the repair and C11_cut_handover_pass_file_released "
-         "records the repaired run (PassesOK is now stronger than needed and kept as stated). 40% of the c11 histories contain a cycle "
+         "records the repaired run. On the repaired model the premise is gone: C11_primary_files_short_all, C11_visited_stable_all and "
+         "C11_primary_file_released_all (Sth/Props/C11P.lean) are the same three statements WITHOUT PassesOK, with the run that contains "
+         "the cut cycle as the non-vacuity instance (the old premise is false on it). 40% of the c11 histories contain a cycle "
          "whose context expires inside the hand-over pass.",
     note=SEQ_NOTE,
 )
